@@ -267,8 +267,15 @@ pub fn run(ctx: &'static Ctx, p: P) {
             let (nodes, leaves) = seq::dfs(ctx, t, c, level, d, &|v| judge(ctx, p, v));
             info.push(json!({"ctor": c.json(), "depth": d, "nodes": nodes, "leaves": leaves}));
         }
-        // lanes (deviation bound 1), every prefix observed
+        // one representative operation per kind (level-0 alphabet), explored deeper: mixtures of many different kinds
         let c0 = t.ctors(0)[0];
+        let kbudget: u64 = if quick { 150_000 } else { 4_000_000 };
+        let kd = seq::depth_for(t, &c0, 0, kbudget, 16);
+        if kd > depth0 {
+            let (nodes, leaves) = seq::dfs(ctx, t, &c0, 0, kd, &|v| judge(ctx, p, v));
+            info.push(json!({"ctor": c0.json(), "alphabet": "one operation per kind", "depth": kd, "nodes": nodes, "leaves": leaves}));
+        }
+        // lanes (deviation bound 1), every prefix observed
         let n = if quick { 300 } else { 600 };
         let lanes = seq::lane_set(t, &c0, n, true);
         let mut lane_prefixes = 0u64;
@@ -370,7 +377,20 @@ pub fn run(ctx: &'static Ctx, p: P) {
             long_info = json!({"lanes": long.len(), "ops_per_lane": 66_000, "prefixes_judged": j.iter().sum::<u64>(),
                 "selection": "every prefix <= 1024; every prefix within 2 of a multiple of 256; within 3 of each point where the image length crosses a multiple of 65536; every 997th; the last"});
         }
-        per_table.push(json!({"table": t.name(), "dfs": info, "lanes": lanes.len(), "lane_len": n, "lane_prefixes_judged": lane_prefixes, "long_lanes": long_info}));
+        // explicit sweep programs (sizes over contiguous ranges, continuation chains, special strings): every prefix judged
+        let sweeps = t.sweeps(level);
+        let sweep_prefixes: u64 = {
+            use rayon::prelude::*;
+            sweeps
+                .par_iter()
+                .map(|(name, ops)| {
+                    let l = seq::Lane { name: format!("sweep:{}", name), ops: ops.clone() };
+                    seq::run_lane(ctx, t, &c0, &l, &|_k| (true, false), &|v| judge(ctx, p, v))
+                })
+                .sum()
+        };
+        lane_prefixes += sweep_prefixes;
+        per_table.push(json!({"table": t.name(), "sweep_programs": sweeps.len(), "sweep_prefixes_judged": sweep_prefixes, "dfs": info, "lanes": lanes.len(), "lane_len": n, "lane_prefixes_judged": lane_prefixes, "long_lanes": long_info}));
     }
     ctx.engine("E2.sequences", json!({"level": level, "node_budget_per_table": budget, "tables": per_table}));
     ctx.set("bound", json!(format!("all operation sequences up to the per-table depth listed under engines (budget {} nodes), all lanes a^N and (ab)^(N/2)", budget)));
